@@ -25,7 +25,8 @@ LEVEL_TEXT = ("Lean 4 theorems about a transition system of RemoteWrapper calls 
               "remote value and fills the local cache; a failing Get changes nothing and never invents content. Tied to the code by trace inclusion "
               "of wrapper-call traces of real two- and three-machine histories, with a closure audit of the fake remote as model-independent oracle.")
 LEVEL_NOTE = ("Not modelled: the AWS/GCS SDK clients (a fake in-memory remote with atomic puts stands in), eventual consistency, eviction of remote "
-              "objects, hangs inside an SDK; the tee's goroutine/pipe protocol is covered only by sampled runs with a timeout (no deadlock theorem). "
+              "objects, hangs inside an SDK. The tee's goroutine/pipe protocol has its own small model (GrogModel/Tee.lean: deadlock-free and terminating for every "
+              "failure order); its steps are not observable without hooks, so that model is tied to the code only by the sampled fault histories running under a timeout. "
               "second_machine (composition with C01: B executes nothing A cached) is sampled by the restore oracle, not proved here.")
 TECHNIQUE = "Lean 4 invariant proof over a transition system + trace-inclusion correspondence on multi-machine histories + remote closure audit"
 OBLIGATIONS = [
@@ -36,6 +37,8 @@ OBLIGATIONS = [
     "Grog.C08.get_never_invents",
     "Grog.C08.failed_get_unchanged",
     "Grog.C08.same_namespace_iff",
+    "Grog.C08.tee_no_deadlock",
+    "Grog.C08.tee_terminates",
 ]
 ASSUMPTIONS = [
     "the remote store never loses an object and a successful put is atomic (S3 PutObject / finalised GCS writer)",
@@ -168,8 +171,10 @@ def run(ctx):
             ctx.violation("implementation driver failed on a history", {"kind": "impl-crash", "request": req, "impl": x}, signature="driver-error", found_input="panic" in x)
             continue
         stats["family"][fam] = stats["family"].get(fam, 0) + 1
+        x["events"] = x.get("events") or []
+        x["remote_keys"] = x.get("remote_keys") or []
         stats["events"] += len(x["events"])
-        for o in x["remote_ops"]:
+        for o in x.get("remote_ops") or []:
             if o.get("fault"):
                 stats["remote_faults_hit"][o["op"] + ":" + o["fault"]] = stats["remote_faults_hit"].get(o["op"] + ":" + o["fault"], 0) + 1
         published = set()      # targets a successful build with the remote cache has written
